@@ -18,3 +18,6 @@ def run(rep, tier, seed):
     rep.extra["asynchb_failure_flags"] = asynchb_common.campaign(
         rep, tier, seed, tabs, ["PromoteOnlyEligible", "NeverRaises"],
         {"promote_not_paused", "scheduler_raised", "promoted_twice", "promote_not_in_rung"})
+    # binding 3: crashing worker processes (exit code 1) on the real LocalBackend
+    from harness.props import local_backend
+    local_backend.campaign(rep, "C13", tier, seed, tables=["local_pause", "local_stop", "local_ask"])
